@@ -238,6 +238,11 @@ func (e *Engine) VerifyFuncCase(key string, targs []string, cf *CaseFix) (rep *F
 			g := c.eval(preEnv, rq.Expr)
 			c.assume(st, g.T)
 		}
+		for _, tq := range ct.Typing {
+			g := c.eval(preEnv, tq.Expr)
+			c.assume(st, g.T)
+			c.TypingUsed = append(c.TypingUsed, tq.Src)
+		}
 	}
 	c.entry = st.clone()
 	if ct != nil && ct.Trusted {
